@@ -13,6 +13,7 @@ use std::collections::HashMap;
 use rb_harness::corpus;
 use rb_harness::driver::ask;
 use rb_harness::gen_prog::{generate, Opts};
+use rb_harness::hdr_calls;
 use rb_harness::json::J;
 use rb_harness::refrun::{core_ast, parse_ref_answer, run_real, Observed};
 use rb_harness::report::{Failure, Kind, Report};
@@ -1149,7 +1150,7 @@ fn directed_program(kind: usize, way: usize, blk: usize, proc_: usize, wrap: usi
 /// thorough: the whole cross product
 fn directed_programs(rng: &mut Rng, thorough: bool) -> Vec<Prog> {
     let mut out = vec![];
-    let mut push = |k, w, b, p, r| out.push(Prog { text: directed_program(k, w, b, p, r), origin: "directed", core: false });
+    let mut push = |k, w, b, p, r| out.push(Prog { text: directed_program(k, w, b, p, r), origin: "directed", core: false, hc: None });
     if thorough {
         for k in 0..D_KINDS {
             for w in 0..D_WAYS {
@@ -1184,6 +1185,24 @@ struct Prog {
     text: String,
     origin: &'static str,
     core: bool,
+    /// header-calls family: (header position, callee shape, enclosing context)
+    hc: Option<(usize, usize, usize)>,
+}
+
+/// the `header-calls` family (harness/src/hdr_calls.rs): a user FUNCTION called from every header position of every
+/// construct, the callee using every register- / stack-holding construct at its top level and nested.
+/// quick: every (position, callee shape) in one context drawn at random; thorough: the whole cross product
+fn header_call_programs(rng: &mut Rng, thorough: bool) -> Vec<Prog> {
+    let mut out = vec![];
+    for pos in 0..hdr_calls::N_POS {
+        for shape in 0..hdr_calls::N_SHAPES {
+            let ctxs: Vec<usize> = if thorough { (0..hdr_calls::N_CTX).collect() } else { vec![rng.below(hdr_calls::N_CTX as u64) as usize] };
+            for ctx in ctxs {
+                out.push(Prog { text: hdr_calls::program(pos, shape, ctx), origin: "header-calls", core: false, hc: Some((pos, shape, ctx)) });
+            }
+        }
+    }
+    out
 }
 
 /// a program ready for rewriting
@@ -1309,11 +1328,176 @@ struct Pending {
     after: Observed,
 }
 
+// ---------------------------------------------------------------------------------------------
+// shrinking a failing pair: statements (whole nodes of the segmented tree) are deleted while the same rule at the
+// same site still changes what the program prints
+
+fn subtree_size(n: &Node) -> usize {
+    let mut c = 0;
+    count_nodes(std::slice::from_ref(n), &mut c);
+    c
+}
+
+/// the tree without the node with pre-order index `victim` (and everything below it)
+fn remove_node(nodes: &[Node], victim: usize, c: &mut usize) -> Vec<Node> {
+    let mut out = vec![];
+    for n in nodes {
+        let me = *c;
+        if me == victim {
+            *c += subtree_size(n);
+            continue;
+        }
+        *c += 1;
+        out.push(match n {
+            Node::Line(l) => Node::Line(l.clone()),
+            Node::If { row, arms, els } => Node::If {
+                row: *row,
+                arms: arms.iter().map(|(k, b)| (k.clone(), remove_node(b, victim, c))).collect(),
+                els: els.as_ref().map(|e| remove_node(e, victim, c)),
+            },
+            Node::For { row, var, lo, hi, step, body, next } => Node::For {
+                row: *row,
+                var: var.clone(),
+                lo: lo.clone(),
+                hi: hi.clone(),
+                step: step.clone(),
+                body: remove_node(body, victim, c),
+                next: next.clone(),
+            },
+            Node::While { row, cond, body } => Node::While { row: *row, cond: cond.clone(), body: remove_node(body, victim, c) },
+            Node::Do { row, top, cond, body } => Node::Do { row: *row, top: *top, cond: cond.clone(), body: remove_node(body, victim, c) },
+            Node::Select { row, expr, cases, els } => Node::Select {
+                row: *row,
+                expr: expr.clone(),
+                cases: cases.iter().map(|(k, b)| (k.clone(), remove_node(b, victim, c))).collect(),
+                els: els.as_ref().map(|e| remove_node(e, victim, c)),
+            },
+        });
+    }
+    out
+}
+
+/// sizes of all subtrees, by pre-order index
+fn all_sizes(nodes: &[Node], out: &mut Vec<usize>) {
+    for n in nodes {
+        out.push(subtree_size(n));
+        match n {
+            Node::Line(_) => {}
+            Node::If { arms, els, .. } => {
+                for (_, b) in arms {
+                    all_sizes(b, out);
+                }
+                if let Some(e) = els {
+                    all_sizes(e, out);
+                }
+            }
+            Node::For { body, .. } | Node::While { body, .. } | Node::Do { body, .. } => all_sizes(body, out),
+            Node::Select { cases, els, .. } => {
+                for (_, b) in cases {
+                    all_sizes(b, out);
+                }
+                if let Some(e) = els {
+                    all_sizes(e, out);
+                }
+            }
+        }
+    }
+}
+
+struct FailingPair {
+    tree: Vec<Node>,
+    text: String,
+    new_text: String,
+    before: Observed,
+    after: Observed,
+}
+
+/// `Some` when the text is accepted, has a site of `rule` at node `target`, and the respelling is accepted and ends
+/// differently (the comparison of the main loop, nothing weaker)
+fn failing_pair(text: &str, target: usize, rule: Rule) -> Option<FailingPair> {
+    let fr = front(text)?;
+    if fr.info.clash {
+        return None;
+    }
+    let tree = segment(text)?;
+    if to_text(&tree) != text {
+        return None;
+    }
+    let mut sites = vec![];
+    let mut cn = Counters::default();
+    collect_sites(&tree, "top", &fr.info, &mut cn, &mut sites);
+    let site = sites.iter().find(|s| s.node == target && s.rule == rule)?;
+    let before = run_real(text, b"", BUDGET);
+    if before.outcome == "budget" || before.outcome.starts_with("front-end") {
+        return None;
+    }
+    let fresh = Fresh::new(text);
+    let (mut c, mut ok) = (0, false);
+    let new_tree = rewrite(&tree, site.node, site.rule, &fr.info, &fresh, &mut c, &mut ok);
+    if !ok {
+        return None;
+    }
+    let new_text = to_text(&new_tree);
+    let after = run_real(&new_text, b"", BUDGET);
+    if after.outcome == "budget" || after.outcome.starts_with("front-end") {
+        return None;
+    }
+    if rule == Rule::ForWhile && kind_of(&before) == "error 258" {
+        return None;
+    }
+    if kind_of(&after) == kind_of(&before) && after.out == before.out {
+        return None;
+    }
+    Some(FailingPair { tree, text: text.to_owned(), new_text, before, after })
+}
+
+fn shrink_pair(text: &str, target: usize, rule: Rule) -> Option<FailingPair> {
+    let deadline = std::time::Instant::now() + std::time::Duration::from_secs(15);
+    let mut best = failing_pair(text, target, rule)?;
+    let mut target = target;
+    let mut changed = true;
+    while changed && std::time::Instant::now() < deadline {
+        changed = false;
+        let mut sizes = vec![];
+        all_sizes(&best.tree, &mut sizes);
+        let mut j = sizes.len();
+        while j > 0 && std::time::Instant::now() < deadline {
+            j -= 1;
+            if j >= sizes.len() {
+                continue;
+            }
+            // never the site itself nor anything enclosing it
+            if j <= target && target < j + sizes[j] {
+                continue;
+            }
+            let cand_tree = remove_node(&best.tree, j, &mut 0);
+            let cand_target = if j < target { target - sizes[j] } else { target };
+            if let Some(fp) = failing_pair(&to_text(&cand_tree), cand_target, rule) {
+                best = fp;
+                target = cand_target;
+                changed = true;
+                sizes.clear();
+                all_sizes(&best.tree, &mut sizes);
+            }
+        }
+    }
+    Some(best)
+}
+
 fn main() {
     std::panic::set_hook(Box::new(|_| {}));
     if let Ok(f) = std::env::var("C02_SHAPE") {
         let t = std::fs::read_to_string(f).unwrap();
         println!("{}", front(&t).map(|f| f.shape).unwrap_or("rejected".into()));
+        return;
+    }
+    if let Ok(dir) = std::env::var("C02_HC_DUMP") {
+        // debugging aid: the whole header-calls family as files <position>.<callee>.<context>.bas
+        for p in header_call_programs(&mut Rng::from_env(), true) {
+            let (a, b, c) = p.hc.unwrap();
+            let name = format!("{}/{}.{}.{}.bas", dir, hdr_calls::pos_name(a), hdr_calls::shape_name(b), hdr_calls::ctx_name(c));
+            std::fs::write(name, &p.text).unwrap();
+        }
         return;
     }
     let mut rng = Rng::from_env();
@@ -1325,7 +1509,12 @@ fn main() {
          (SELECT CASE with simple / IS / range / multi-item lists, IF/ELSEIF/ELSE, FOR without / negative / computed STEP, WHILE, the four \
          DO forms) inside a FUNCTION or a SUB, optionally wrapped in FOR / CASE ELSE / ELSE / DO, each of its blocks in turn holding EXIT \
          FUNCTION / EXIT SUB or a GOTO past the construct, the procedure called with a pending left operand (PRINT 100 + F%(N%), A% = 7 * \
-         F%(N%) + 1) for arguments selecting every block; every program text of the repository's tests and fixtures the block segmenter \
+         F%(N%) + 1) for arguments selecting every block; a directed family header-calls: a user FUNCTION called from every header \
+         position (FOR lower / upper bound / STEP in eleven forms, WHILE, the four DO conditions, IF / ELSEIF block and single-line, \
+         SELECT selector, CASE items simple / IS / range, PRINT items, array subscripts, DIM bounds) x 16 callee bodies using, at their \
+         top level and nested, FOR without / with positive / negative / computed / SINGLE / LONG step, SELECT CASE, calls in their own \
+         FOR header, GOSUB, EXIT FUNCTION inside FOR, STATIC, recursion x 8 enclosing contexts (top, FOR, FOR STEP -1, CASE block, \
+         WHILE, FUNCTION called with a pending operand, SUB, ELSE), callee and construct printing what they do; every program text of the repository's tests and fixtures the block segmenter \
          handles) x every rewrite site x every rule (while-do, until-not, for-step1, wrap-loop, \
          select-if, for-while, if-single-line, if-block): the rewritten text is accepted by the real front end and runs to the same \
          stdout bytes and outcome kind (error code) as the original; for core programs the Lean model's rewrite at the same site is run \
@@ -1355,21 +1544,26 @@ fn main() {
             rep.bump("corpus.skipped.files-env-clock");
             continue;
         }
-        progs.push(Prog { text: t, origin: "corpus", core: true });
+        progs.push(Prog { text: t, origin: "corpus", core: true, hc: None });
     }
     rep.bump_by("corpus.accepted-programs", progs.len() as u64);
     // the directed family comes right after the corpus, so that a pair budget never cuts it
     let directed = directed_programs(&mut rng, thorough);
     rep.bump_by("directed.programs", directed.len() as u64);
     progs.extend(directed);
+    // the header-calls family has a pair budget of its own (all its sites): the generated families keep theirs.
+    // Its choices come from a stream of their own, so that the generated programs stay what they were
+    let header_calls = header_call_programs(&mut Rng(rng.seed() ^ 0x4843_414c_4c53), thorough);
+    rep.bump_by("header-calls.programs", header_calls.len() as u64);
+    progs.extend(header_calls);
     let mut gens: Vec<Prog> = vec![];
     for k in 0..n_core {
         let (text, _) = generate(&mut rng, &core_opts(k % 3 == 0));
-        gens.push(Prog { text, origin: "gen-core", core: true });
+        gens.push(Prog { text, origin: "gen-core", core: true, hc: None });
     }
     for _ in 0..n_full {
         let (text, _) = generate(&mut rng, &full_opts());
-        gens.push(Prog { text, origin: "gen-full", core: false });
+        gens.push(Prog { text, origin: "gen-full", core: false, hc: None });
     }
     // interleave the two generated families so that a pair budget cuts both evenly
     let (mut a, mut b): (Vec<Prog>, Vec<Prog>) = gens.into_iter().partition(|p| p.origin == "gen-core");
@@ -1392,10 +1586,21 @@ fn main() {
     let mut jobs: Vec<(&Prog, &Prepared, usize)> = vec![];
     let mut job_prog: Vec<usize> = vec![];
     let mut pairs = 0usize;
+    let mut hc_pairs = 0usize;
     for (pi, (p, pr)) in progs.iter().zip(prepared.iter()).enumerate() {
         match pr {
             Err(why) => rep.bump(&format!("{}.{}", p.origin, why)),
             Ok(pr) => {
+                if let Some((pos, shape, ctx)) = p.hc {
+                    hc_pairs += pr.sites.len();
+                    rep.bump("header-calls.programs-with-sites");
+                    rep.bump(&format!("header-calls.position.{}", hdr_calls::pos_name(pos)));
+                    rep.bump(&format!("header-calls.callee.{}", hdr_calls::shape_name(shape)));
+                    rep.bump(&format!("header-calls.context.{}", hdr_calls::ctx_name(ctx)));
+                    jobs.push((p, pr, pr.sites.len()));
+                    job_prog.push(pi);
+                    continue;
+                }
                 if pairs >= pair_budget {
                     rep.bump(&format!("{}.not-reached-pair-budget", p.origin));
                     continue;
@@ -1412,6 +1617,7 @@ fn main() {
 
     let mut pending: Vec<Pending> = vec![];
     let mut samples = 0;
+    let mut shrunk = 0;
     for ((job, outs), pi) in jobs.iter().zip(results.into_iter()).zip(job_prog.iter()) {
         let (p, pr, _) = *job;
         let okind = kind_of(&pr.before);
@@ -1462,13 +1668,34 @@ fn main() {
                         rep.bump("discarded.rewritten-exceeds-budget");
                     } else if kind_of(&after) != okind || after.out != pr.before.out {
                         let what = if kind_of(&after) != okind { "outcome" } else { "output" };
+                        // the first few failing pairs are shrunk (statements deleted while the same rule at the same site
+                        // still changes the result); signature and comparison are those of the unshrunk pair
+                        let small = if shrunk < 4 && p.origin != "corpus" {
+                            shrunk += 1;
+                            shrink_pair(&pr.re, site.node, site.rule)
+                        } else {
+                            None
+                        };
+                        let family = match p.hc {
+                            Some((a, b, c)) => format!(
+                                "; header-calls: position {}, callee {}, context {}",
+                                hdr_calls::pos_name(a),
+                                hdr_calls::shape_name(b),
+                                hdr_calls::ctx_name(c)
+                            ),
+                            None => String::new(),
+                        };
+                        let (orig_t, new_t, bef, aft, shr) = match &small {
+                            Some(fp) => (&fp.text, &fp.new_text, &fp.before, &fp.after, " (shrunk)"),
+                            None => (&pr.re, &new_text, &pr.before, &after, ""),
+                        };
                         rep.fail(Failure {
                             kind: Kind::ImplVsProperty,
                             signature: format!("{}:{}:in-{}", site.rule.name(), what, site.within),
-                            input: format!("{}\n--- respelled ({} at site {}) ---\n{}", pr.re, site.rule.name(), site.kind_idx, new_text),
-                            implementation: format!("{} / {:?}", after.outcome, String::from_utf8_lossy(&after.out)),
-                            expected: format!("{} / {:?}", pr.before.outcome, String::from_utf8_lossy(&pr.before.out)),
-                            note: "original vs respelled program on the real implementation".into(),
+                            input: format!("{}\n--- respelled ({} at site {}) ---\n{}", orig_t, site.rule.name(), site.kind_idx, new_t),
+                            implementation: format!("{} / {:?}", aft.outcome, String::from_utf8_lossy(&aft.out)),
+                            expected: format!("{} / {:?}", bef.outcome, String::from_utf8_lossy(&bef.out)),
+                            note: format!("original vs respelled program on the real implementation{}{}", shr, family),
                         });
                     }
                     if samples < 3 && p.origin != "corpus" && matches!(site.rule, Rule::ForWhile | Rule::SelectIf) && new_text.len() < 1500 {
@@ -1482,7 +1709,8 @@ fn main() {
             }
         }
     }
-    rep.bump_by("pairs", pairs as u64);
+    rep.bump_by("pairs", (pairs + hc_pairs) as u64);
+    rep.bump_by("header-calls.pairs", hc_pairs as u64);
 
     // the model's rewrite at the same sites
     let reqs: Vec<String> =
